@@ -7,6 +7,7 @@ the OS does, and real subprocesses for documents engineered to have exactly k er
 import contextlib
 import io
 import os
+import re
 import random
 import shutil
 import subprocess
@@ -172,6 +173,8 @@ def check_doc(cls, xsd, doc, ctx, st, expect_valid=None, sources=True, cli=True,
             'XMLResource_lazy3': lambda: xmlschema.XMLResource(path, lazy=3),
         }
         base_errs = [compare.err_pos(e) for e in s.iter_errors(doc)]
+        # an lxml tree keeps comments and processing instructions as children, ElementTree's parser drops them
+        lx_cls = ['lxml-tree-comment-or-pi'] if re.search(r'<!--|<\?(?!xml[ ?])', doc) else []
         for name, mk in kinds.items():
             src = mk()
             try:
@@ -191,7 +194,8 @@ def check_doc(cls, xsd, doc, ctx, st, expect_valid=None, sources=True, cli=True,
                         out.append(rec('source_kind_errors:' + name, base_errs[:3], got[:3]))
                     continue
                 if got != base_errs:
-                    out.append(rec('source_kind_errors:' + name, base_errs[:3], got[:3]))
+                    out.append(dict(rec('source_kind_errors:' + name, base_errs[:3], got[:3]),
+                                    classes=lx_cls if name == 'lxml_tree' else []))
                     continue
                 if valid and sig[0] == 'ok' and name != 'XMLResource_lazy':
                     src = mk()
@@ -202,8 +206,9 @@ def check_doc(cls, xsd, doc, ctx, st, expect_valid=None, sources=True, cli=True,
                                        type(ex).__name__ + ': ' + str(ex)[:100]))
                         continue
                     if d != data_strict:
-                        out.append(rec('source_kind_data:' + name, 'same typed data as str source',
-                                       compare.first_diff(data_strict, d)))
+                        out.append(dict(rec('source_kind_data:' + name, 'same typed data as str source',
+                                            compare.first_diff(data_strict, d)),
+                                        classes=lx_cls if name == 'lxml_tree' else []))
             finally:
                 for x in (src,):
                     if hasattr(x, 'close'):
@@ -299,12 +304,46 @@ def check_cli_counts(ctx, st, ks, subprocess_too):
     return out
 
 
+# ------------------------------------------------------------------------------------ value constraints
+
+VC_XSD = ('<xs:schema xmlns:xs="http://www.w3.org/2001/XMLSchema"><xs:complexType name="M" mixed="true"><xs:sequence>'
+          '<xs:element name="c" minOccurs="0"/></xs:sequence></xs:complexType>'
+          '<xs:complexType name="SC"><xs:simpleContent><xs:extension base="xs:int"><xs:attribute name="u"/></xs:extension>'
+          '</xs:simpleContent></xs:complexType>'
+          '<xs:element name="root"><xs:complexType><xs:sequence>'
+          '<xs:element name="fs" type="xs:string" fixed="abc" minOccurs="0" maxOccurs="unbounded"/>'
+          '<xs:element name="ft" type="xs:token" fixed="a b" minOccurs="0" maxOccurs="unbounded"/>'
+          '<xs:element name="fi" type="xs:int" fixed="7" minOccurs="0" maxOccurs="unbounded"/>'
+          '<xs:element name="fm" type="M" fixed="abc" minOccurs="0" maxOccurs="unbounded"/>'
+          '<xs:element name="dm" type="M" default="abc" minOccurs="0" maxOccurs="unbounded"/>'
+          '<xs:element name="fc" type="SC" fixed="7" minOccurs="0" maxOccurs="unbounded"/>'
+          '<xs:element name="ds" type="xs:int" default="3" minOccurs="0" maxOccurs="unbounded"/>'
+          '<xs:element name="fn" type="xs:int" fixed="7" nillable="true" minOccurs="0" maxOccurs="unbounded"/>'
+          '</xs:sequence></xs:complexType></xs:element></xs:schema>')
+VC_VALUES = ['', ' ', '\n  ', 'abc', ' abc ', 'x', '7', '07', ' 7 ', 'a b', ' a  b ', '<c/>', 'abc<c/>', '<!-- k -->', '3']
+
+
+def vc_doc(rnd):
+    """Elements with fixed / default value constraints of every content kind (simple, simple content, mixed) holding
+    nothing, blanks, the constrained value in several lexical forms, another value, a child or a comment."""
+    parts = []
+    for name in ('fs', 'ft', 'fi', 'fm', 'dm', 'fc', 'ds', 'fn'):
+        for _ in range(rnd.choice([0, 0, 1, 1, 2])):
+            v = rnd.choice(VC_VALUES)
+            a = ' u="1"' if name == 'fc' and rnd.random() < .3 else ''
+            if name == 'fn' and rnd.random() < .3:
+                a = ' xmlns:xsi="http://www.w3.org/2001/XMLSchema-instance" xsi:nil="true"'
+                v = rnd.choice(['', '', '7'])
+            parts.append('<%s%s>%s</%s>' % (name, a, v, name) if v or rnd.random() < .5 else '<%s%s/>' % (name, a))
+    return '<root>%s</root>' % ''.join(parts)
+
+
 # ------------------------------------------------------------------------------------ protocol
 
 def shards(tier, seed):
     n = 16
     return [('gen', k, tier, seed) for k in range(n)] + [('cli', tier, seed)] + [('kinds', k, tier, seed) for k in range(4)] \
-        + [('shadow', 0, tier, seed)]
+        + [('shadow', 0, tier, seed)] + [('vc', k, tier, seed) for k in range(2)]
 
 
 def run_shard(desc):
@@ -340,6 +379,18 @@ def run_shard(desc):
                 return recs
             core.hyp_drive(st, PROPERTY, hst.randoms(use_true_random=False), body, n,
                            core.derive_seed(seed, 'C04kinds', k))
+        elif desc[0] == 'vc':
+            _, k, tier, seed = desc
+            n = 200 if tier == 'thorough' else 35
+
+            def body(rnd, st_):
+                doc = vc_doc(rnd)
+                cls = xmlschema.XMLSchema11 if rnd.random() < 0.3 else xmlschema.XMLSchema10
+                st_.cls('value_constraints')
+                st_.sample({'generator': 'value constraints', 'doc': doc[:300]}, cap=2)
+                return check_doc(cls, VC_XSD, doc, ctx, st_, label='vc')
+            core.hyp_drive(st, PROPERTY, hst.randoms(use_true_random=False), body, n,
+                           core.derive_seed(seed, 'C04vc', k))
         elif desc[0] == 'shadow':
             # local declarations that share their names with differently typed GLOBAL elements: a source kind that
             # resolves the children of a lazily loaded root by name sees another declaration than the full tree does
